@@ -9,6 +9,7 @@ import (
 	"sort"
 	"strings"
 	"testing"
+	"testing/synctest"
 	"time"
 
 	"github.com/celestiaorg/go-header/p2p"
@@ -23,6 +24,10 @@ type c13P struct {
 	H       uint64      `json:"h"`
 	Peers   []behaviour `json:"peers"`
 	Metrics bool        `json:"metrics,omitempty"` // client WithMetrics
+	// ViaParams: the options are handed over as one ClientParameters value (WithParams)
+	ViaParams bool `json:"via_params,omitempty"`
+	// PriorRange: a GetRangeByHeight over the same peers runs first (its session may block lying peers)
+	PriorRange bool `json:"prior_range,omitempty"`
 }
 
 const c13Timeout = 2 * time.Second
@@ -66,6 +71,15 @@ func TestC13(t *testing.T) {
 		mon.Emit(r, "request", c13P{Op: "getnil", H: 20, Peers: []behaviour{{Kind: k, K: 1}}}, "request")
 		mon.Emit(r, "request", c13P{Op: "getnil", H: 20, Peers: []behaviour{{Kind: k, K: 1, DelayMs: 5}, {Kind: bHonest, DelayMs: 50}}}, "request")
 	}
+	// the same single-header requests with the options handed over through WithParams, or after a range request
+	for _, op := range []string{"get", "byheight"} {
+		for _, k := range []string{bHonest, bWrongChain, bNoChain, bGarbage, bInvalid, bNotFound} {
+			mon.Emit(r, "request", c13P{Op: op, H: 20, Peers: []behaviour{{Kind: k, K: 1}}, ViaParams: true}, "request")
+			mon.Emit(r, "request", c13P{Op: op, H: 20, Peers: []behaviour{{Kind: k, K: 1, DelayMs: 5}, {Kind: bHonest, DelayMs: 100}}, ViaParams: true}, "request")
+			mon.Emit(r, "request", c13P{Op: op, H: 20, Peers: []behaviour{{Kind: k, K: 1}}, PriorRange: true}, "request")
+			mon.Emit(r, "request", c13P{Op: op, H: 20, Peers: []behaviour{{Kind: k, K: 1, DelayMs: 5}, {Kind: k, K: 0, DelayMs: 9}}, PriorRange: true}, "request")
+		}
+	}
 	rng := r.Rand("c13")
 	for i := 0; i < r.N(650, 30000); i++ {
 		p := c13P{Op: []string{"get", "byheight"}[rng.Intn(2)], H: 2 + uint64(rng.Intn(40)), Metrics: i%5 == 4}
@@ -100,8 +114,17 @@ func c13Run(c *mon.Case, p c13P) {
 		if p.Metrics {
 			copts = append(copts, p2p.WithMetrics[p2p.ClientParameters]())
 		}
+		kitViaParams = p.ViaParams
 		cw := newClientWorld(c, chain, p.Peers, trusted, copts...)
+		kitViaParams = false
 		defer cw.close()
+		if p.PriorRange {
+			rctx, rc := context.WithTimeout(context.Background(), 20*time.Second)
+			_, _ = cw.ex.GetRangeByHeight(rctx, chain.At(5), 12)
+			rc()
+			synctest.Wait()
+			c.Count("prior_range_requests", 1)
+		}
 		want := chain.At(p.H)
 		ctx, cancel := context.WithTimeout(context.Background(), time.Minute)
 		t0 := time.Now()
@@ -153,6 +176,12 @@ func c13Run(c *mon.Case, p c13P) {
 		outcome := "error"
 		if err == nil {
 			outcome = "ok"
+		}
+		if p.ViaParams {
+			ks = append(ks, "via-params")
+		}
+		if p.PriorRange {
+			ks = append(ks, "after-range")
 		}
 		c.Class("%s peers=%s first-valid=%s => %s", p.Op, strings.Join(ks, "+"), firstValid, outcome)
 		sig := p.Op + "/first-valid=" + firstValid
